@@ -9,6 +9,7 @@ func register(c *PropConfig) { propConfigs[c.ID] = c }
 func init() {
 	register(&PropConfig{
 		ID:       "C07",
+		Replay:   replayC07,
 		Packages: []string{"./parser/v2", "./generator"},
 		Assume: []string{
 			"Go expressions recorded by the parser are well-formed UTF-8 (Go source must be); for ill-formed bytes the column arithmetic of Add is not claimed",
